@@ -313,6 +313,20 @@ fn gen_level(r: &mut Rng, p: &mut Pools, depth: usize) -> Shape {
         }
         fields.append(&mut extra);
     }
+    if r.chance(1, 10) {
+        // the same env-backed flag declared twice (a parser value cloned into two fields)
+        let twin = fields.iter().find_map(|f| match f {
+            Shape::Switch(n) | Shape::Flag(n, _, _) | Shape::ReqFlag(n, _)
+                if !n.envs.is_empty() && (!n.shorts.is_empty() || !n.longs.is_empty()) =>
+            {
+                Some(f.clone())
+            }
+            _ => None,
+        });
+        if let Some(t) = twin {
+            fields.push(t);
+        }
+    }
     if r.chance(1, 5) {
         fields.push(Shape::Pos {
             metavar: "FILE",
@@ -860,6 +874,24 @@ pub fn scan(ix: &Index, argv: &[Tok]) -> Option<LineInfo> {
                         0 => {}
                         1 => {
                             let o = others[0];
+                            let attached = hit.as_ref().unwrap().1.clone();
+                            let plain = |x: &Item| {
+                                x.is_flag && x.ctx == Ctx::Simple && x.stack.is_empty() && x.group.is_none()
+                            };
+                            if plain(it) && plain(o) && it.named == o.named {
+                                // the same flag declared twice as two plain fields: they are
+                                // evaluated in declaration order, each takes one occurrence
+                                let (a, b) = if it.id < o.id { (it, o) } else { (o, it) };
+                                let taken = |x: &Item| info.occurrences.get(&x.id).copied().unwrap_or(0);
+                                hit = Some(if taken(a) == 0 {
+                                    (a, attached)
+                                } else if taken(b) == 0 {
+                                    (b, attached)
+                                } else {
+                                    return None;
+                                });
+                                break;
+                            }
                             let (arg, flag) = if it.adjacent_arg && o.is_flag {
                                 (it, o)
                             } else if o.adjacent_arg && it.is_flag {
@@ -867,7 +899,6 @@ pub fn scan(ix: &Index, argv: &[Tok]) -> Option<LineInfo> {
                             } else {
                                 return None;
                             };
-                            let attached = hit.as_ref().unwrap().1.clone();
                             hit = Some(if attached.is_some() {
                                 (arg, attached)
                             } else {
@@ -1806,7 +1837,15 @@ pub fn run_case(case: &Case, stats: &mut Stats) -> RunReport {
                         .collect::<Vec<_>>()
                         .join(".");
                     // ---- R2: the line wins
-                    if occ > 0 && it.ctx != Ctx::Other && !it.shared_env {
+                    // (inside a group that is optional or repeated as a whole a *flag* may be
+                    // evaluated more often than it is typed, and then its variable legitimately
+                    // shows; an *argument* whose name is on the line never consults it)
+                    let in_plain_group =
+                        it.ctx == Ctx::Other && !it.is_flag && it.group.is_none() && !it.adjacent_arg;
+                    if occ > 0 && (it.ctx != Ctx::Other || in_plain_group) && !it.shared_env {
+                        if in_plain_group {
+                            stats.bump("probe.R2_argument_inside_a_wrapped_group");
+                        }
                         if let Some((_, v)) = &set {
                             let without = with_env_removed(&it.named.envs, || run_on(l, op));
                             stats.bump("rule.R2.evaluated");
